@@ -420,7 +420,37 @@ def _blocks(fn):
     return out
 
 
+
+def tables_do_not_insert_on_lookup(ctx, rule):
+    """diff_dicts asks `subpath in config.differs` / `(path or '/') in config.predicates` ("was something configured for exactly
+    this path?").  That question has a stable answer only if LOOKING a path up never stores it: a table that inserts on a miss
+    (collections.defaultdict, or a subclass whose __missing__ stores) makes the second visit of a path within one diff() call
+    look configured -- the differ is then applied to scalars and diff() raises, even for diff(a, a)."""
+    from .. import facts
+    repo, cg = ctx.repo, ctx.cg
+    sites = []
+    for fname in ('default_predicates', 'default_differs'):
+        fn = repo.func('nbdime.diffing.generic:' + fname)
+        for r in walk_no_nested(fn):
+            if isinstance(r, ast.Return) and isinstance(r.value, ast.Call):
+                sites.append(('nbdime.diffing.generic:' + fname, r.value))
+    G = facts.module_globals(repo, cg)
+    for (mod, name), info in sorted(G.items()):
+        if mod == 'nbdime.diffing.notebooks' and name in ('notebook_predicates', 'notebook_differs'):
+            sites.append(('%s.%s' % (mod, name), info['node']))
+    if len(sites) < 4:
+        raise AnalysisError('predicate/differ tables not found (%d)' % len(sites))
+    for where, call in sites:
+        ctor = (dotted(call.func) or '').split('.')[-1]
+        ai, why = facts.auto_inserting(repo, cg, {'ctor': ctor, 'node': call})
+        ctx.inst(rule, where, '%s(...)' % ctor, not ai,
+                 'lookups leave the table unchanged (%s)' % why if not ai else
+                 'this table stores a key whenever it is looked up (%s): `path in table` then depends on which paths were visited before, and a path visited twice '
+                 'in one diff() call is treated as explicitly configured' % why, call)
+
 def run(ctx):
+    ctx.rule('R02.11', 'where equal items are trimmed from both ends before aligning, the tail scan is bounded by the head count (no overlap)', floor=1)
+    ctx.rule('R02.10', 'the predicate/differ tables consulted by membership never insert on lookup', floor=4)
     ctx.rule('R02.9', 'fields read from a diff entry exist for every op that the surrounding op tests still allow (field table from the op_* constructors)', floor=8)
     ctx.rule('R02.8', 'name binding: every global name a function refers to is bound at module level or builtin, and every local is assigned on every path before it is read', floor=6)
     ctx.rule('R02.7', 'every exactly resolved call binds against its callee\'s signature (no missing/unknown/surplus argument on any arm)', floor=4)
@@ -431,3 +461,6 @@ def run(ctx):
     name_binding(ctx, 'R02.8', ['nbdime.diffing.generic', 'nbdime.diffing.seq', 'nbdime.diffing.sequences', 'nbdime.diffing.snakes', 'nbdime.diffing.lcs', 'nbdime.patching', 'nbdime.diff_utils', 'nbdime.diff_format'])
     from ..opfields import check_op_fields
     check_op_fields(ctx, 'R02.9', ['nbdime.diffing.generic', 'nbdime.diffing.seq', 'nbdime.diffing.sequences', 'nbdime.diffing.snakes', 'nbdime.diffing.lcs', 'nbdime.patching', 'nbdime.diff_utils', 'nbdime.diff_format'])
+    tables_do_not_insert_on_lookup(ctx, 'R02.10')
+    from ..trim import check_trims
+    check_trims(ctx, 'R02.11', ['nbdime.diffing.'])
